@@ -169,3 +169,67 @@ Example ex_missing_leader :
   queue (nd s) = [(cmdN 7, CbLocal 21)] /\
   fired (outs s') = [(21, 0, MISSING_LEADER)] /\ log (nd s') = log (nd s) /\ queue (nd s') = [].
 Proof. vm_compute. repeat split; reflexivity. Qed.
+
+(* ---- hypotheses of the log_wf theorems ---- *)
+From PSO Require Import Raft.ProofsApplyWf.
+
+Definition ex_ae : msg := AE 1 3 (Some (2, 1)) [mkEntry (cmdN 7) 3 1; mkEntry (cmdR 8) 4 1].
+Definition ex_follower : node :=
+  (init_node ex_env (Some 2) [1] 1) <| log := [mkEntry (noop_cmd 5) 1 0; mkEntry (noop_cmd 5) 2 1] |> <| term := 1 |>.
+
+Example ex_msg_wf :
+  log_wf (log ex_follower) /\ msg_wf ex_ae /\
+  (forall sn, stored (sr ex_follower) = Some (Good sn) -> snap_wf sn) /\
+  (forall ps, incoming (sr ex_follower) = Some ps -> Forall piece_wf ps) /\
+  map eidx (log (nd (on_message ex_env 1 ex_ae ex_follower))) = [1; 2; 3; 4].
+Proof.
+  split. { split; [discriminate|]. cbn. auto. }
+  split. { cbn. auto. }
+  split. { intros sn H. discriminate H. }
+  split. { intros ps H. discriminate H. }
+  vm_compute. reflexivity.
+Qed.
+
+Example ex_tick_wf :
+  log_wf (log ex_node) /\ (forall sn, stored (sr ex_node) = Some (Good sn) -> snap_wf sn) /\
+  (pid (sr (nd (tick_body ex_env (start_S ex_env ex_node)))) = 1 ->
+   cur_id (sr (nd (tick_body ex_env (start_S ex_env ex_node)))) <= last_idx (log (nd (tick_body ex_env (start_S ex_env ex_node))))).
+Proof.
+  split. { split; [discriminate|]. cbn. repeat split; reflexivity. }
+  split. { intros sn H. discriminate H. }
+  vm_compute. discriminate.
+Qed.
+
+(* ---- the lost callback on a full run: 3 nodes; node 2 runs code version 0, nodes 1 and 3 version 1.
+   Leader 1 (term 1) appends a command forwarded by node 2 at index 4 and tells node 2 (4, term 1),
+   then is cut off before replicating it.  Node 3 wins term 2 (noop at index 3) and appends
+   "switch to code version 1" at index 4.  Node 2 receives it, reaches commit 4, stops at index 4
+   (it lacks version 1): the subscription (4, term 1, callback 21) is popped and callback 21 is
+   never called, although the entry at index 4 has another term (the contract says DISCARDED). ---- *)
+Definition lost_cb_trace : list event :=
+  [ERestart 1 [2;3] 0 0 1; ERestart 2 [1;3] 0 0 0; ERestart 3 [1;2] 0 0 1;
+   EConnect 1 2; EConnect 2 1; EConnect 1 3; EConnect 3 1; EConnect 2 3; EConnect 3 2;
+   T 50 1; D 51 1 2; D 51 1 3; D 52 2 1; D 52 3 1;
+   D 53 1 2; D 53 1 3; D 54 2 1; D 54 3 1;
+   T 65 1; D 66 1 2; D 66 1 3; D 67 2 1; D 67 3 1;
+   T 68 2; T 68 3;
+   ESubmit 1 (cmdN 5) 0; ESubmit 2 (cmdN 7) 21;
+   T 69 2; D 70 2 1; T 76 1;
+   D 77 1 2; D 77 1 3; D 77 1 2;
+   T 120 3; D 121 3 2; D 122 2 3;
+   D 123 3 2; D 124 2 3;
+   ESetVer 3 (cmdV 1) 31; T 131 3; T 142 3; D 143 3 2; D 144 2 3;
+   T 153 3; D 154 3 2; T 155 2; T 165 2].
+
+Example lost_callback_on_a_run :
+  exists g n2,
+    NoDup (flat_map ev_ids lost_cb_trace) /\
+    run_outcomes cx ginit lost_cb_trace = Some (g, [(31, 0, SUCCESS)]) /\
+    aget 2 (nodes g) = Some n2 /\
+    commit n2 = 4 /\ applied n2 = 3 /\ wait_commit n2 = [] /\ wait_reply n2 = [] /\ queue n2 = [] /\
+    map (fun e => (eidx e, eterm e, ck (ecmd e))) (log n2) = [(2, 1, 1); (3, 2, 1); (4, 2, 3)].
+Proof.
+  eexists. eexists. split. { cbn. repeat constructor; cbn; intuition discriminate. }
+  split; [vm_compute; reflexivity|]. split; [vm_compute; reflexivity|].
+  vm_compute. repeat split; reflexivity.
+Qed.
